@@ -13,7 +13,7 @@
 //!   c14 parse <exprs.ndjson> <cases.ndjson> <out.ndjson>
 //!       token-model replay: render expression j under the RAW choice, parse with the real parser, record the tree
 //!       as text {j, ch, core, got}; TLC (mode pvalidate) compares with the reference parser.
-//!   c14 render        {tops, ch} on stdin -> source text on stdout (for replay files and notes)
+//!   c14 render        {tops, ch, triv} on stdin -> source text on stdout (for replay files and notes)
 //!   c14 probe         sources separated by a line "=====" on stdin -> parse tree / compile class per source
 //!
 //! Negative controls (C14_STUB): swap (one variant rendered from a core with two arguments swapped), salt (masked
@@ -26,7 +26,7 @@ use std::collections::BTreeMap;
 use std::io::Read;
 use std::path::Path;
 use vharness::printer::{print_program, PrintOpts};
-use vharness::surface::{choice_of, render_expr_stmt, render_program};
+use vharness::surface::{choice_of, render_expr_stmt, render_program, triv_of};
 use vharness::util::*;
 use vharness::{CompileResult, Project};
 
@@ -71,13 +71,31 @@ fn norm_tails(v: &mut Value) {
     }
 }
 
-fn ast_digest(src: &str) -> String {
-    match vharness::astdump::parse_module(src) {
-        Ok(mut tops) => {
+/// the project of a rendered program: main.sy plus the module files its `from .. use` tops bring along
+fn project_of(src: &str, tops: &[Value]) -> Project {
+    let mut p = Project::single(src);
+    for t in tops {
+        if t["k"] == "fromuse" {
+            p.files.insert(format!("{}.sy", t["path"].as_str().unwrap()), t["src"].as_str().unwrap().to_string());
+        }
+    }
+    p
+}
+
+/// the real parser's tree of the main module (astdump projection), all project files being served
+fn ast_digest(proj: &Project) -> String {
+    use std::path::Path;
+    let main = Project::abs(&proj.main);
+    let reader = |p: &Path| -> Result<String, sylt_common::Error> {
+        proj.files.get(&Project::rel(p)).cloned().ok_or_else(|| sylt_common::Error::FileNotFound(p.to_path_buf()))
+    };
+    match sylt_parser::tree(&main, reader, false) {
+        Ok(ast) => {
+            let mut tops: Vec<Value> = ast.modules[0].1.statements.iter().filter_map(vharness::astdump::stmt).collect();
             tops.iter_mut().for_each(norm_tails);
             hex(fnv(&serde_json::to_string(&tops).unwrap()))
         }
-        Err(errs) => format!("parse-error:{}", errs.first().map(|e| e.line).unwrap_or(0)),
+        Err(errs) => format!("parse-error:{}", errs.len()),
     }
 }
 
@@ -166,6 +184,10 @@ fn record(args: &[String]) {
     let cases: Vec<Value> = read_ndjson(Path::new(&args[2]));
     let preludes: Value = serde_json::from_str(&std::fs::read_to_string(&args[3]).unwrap()).unwrap();
     let stub = std::env::var("C14_STUB").unwrap_or_default();
+    let triv = triv_of(&preludes["triv"]);
+    if triv.len() < 2 {
+        tool_error("preludes file carries no trivia table (SyltSurface!TrivSeqs)");
+    }
     let recs = vharness::pool::par_map(&cases, |_, c| {
         let pre = c["pre"].as_str().unwrap();
         let mut tops: Vec<Value> = match pre {
@@ -203,19 +225,20 @@ fn record(args: &[String]) {
                 }
                 tops_v.extend(focus.as_array().unwrap().iter().cloned());
             }
-            let (src, wr) = match render_program(&tops_v, ch, true) {
+            let (src, wr) = match render_program(&tops_v, ch, true, &triv) {
                 Ok(x) => x,
                 Err(e) => tool_error(&format!("case {}: the renderer cannot honour choice {:?}: {}", c["id"], ch, e)),
             };
-            if vi == 0 && stub.is_empty() {
+            if vi == 0 && stub.is_empty() && !tops.iter().any(|t| t["k"] == "fromuse") {
                 let reference = print_program(&tops, &PrintOpts::default());
                 if reference != src {
                     let diff = reference.lines().zip(src.lines()).find(|(a, b)| a != b);
                     tool_error(&format!("case {}: plain rendering differs from printer.rs default: {:?}", c["id"], diff));
                 }
             }
-            let ast = ast_digest(&src);
-            let (class, mut raw, mut masked, detail) = match vharness::compile(&Project::single(&src)) {
+            let proj = project_of(&src, &tops_v);
+            let ast = ast_digest(&proj);
+            let (class, mut raw, mut masked, detail) = match vharness::compile(&proj) {
                 CompileResult::Ok { lua } => ("ok", hex(fnv(&lua)), hex(fnv(&mask_lines(&lua))), String::new()),
                 CompileResult::Err { errors, .. } => (
                     "err",
@@ -297,7 +320,7 @@ fn main() {
             let mut inp = String::new();
             std::io::stdin().read_to_string(&mut inp).unwrap();
             let v: Value = serde_json::from_str(&inp).unwrap();
-            match render_program(v["tops"].as_array().unwrap(), &choice_of(&v["ch"]), true) {
+            match render_program(v["tops"].as_array().unwrap(), &choice_of(&v["ch"]), true, &triv_of(&v["triv"])) {
                 Ok((src, _)) => print!("{}", src),
                 Err(e) => tool_error(&e),
             }
